@@ -1,5 +1,6 @@
 """C15 - ignoring or removing a class affects that class only (Engines F, E)."""
 from .. import rules_flow as RF
+from .. import rules_cli as RC
 from .. import rules_matlab as RM
 from .. import rules_pybind as RP
 
@@ -30,4 +31,6 @@ def run(ctx, rep):
     # X7: nothing computed for one class is carried into the text of the classes that follow it in the same loop
     rep.run(RF.rule_no_state_carried_between_elements, ctx, rep, "X7")
     rep.run(RM.rule_ignore_list_kept_as_given, ctx, rep, "X8")
+    # X9: the command-line scripts hand --ignore to the wrappers as given (an entry without `::` names a class at global scope) (= C16 Y3)
+    rep.run(RC.rule_option_plumbing, ctx, rep, "X9", only_flags=("--ignore",))
     rep.run(RF.rule_locals_defined, ctx, rep, "U1", packages=("gtwrap/matlab_wrapper", "gtwrap/pybind_wrapper.py"), min_functions=3)
